@@ -105,6 +105,19 @@ CHECKS = {
         note='Lexing is specified at token level with a fixed rendering (unary minus binds before a signed number literal; a '
              'name of >= 2 characters followed by "(" opens a call).',
         ref='DESIGN.md 5 C02'),
+    'C17': dict(
+        technique='TLA+ include machine in BareCore (resolution against the containing file, include stack) vs a structural '
+                  'statement of the property (MC_Include.Expected) checked by TLC over all trees of a small VFS family + TLC '
+                  'trace validation of real runs with a recording fetchFn (Trace_Core)',
+        text='TLC enumerates include trees over a VFS with nested directories, absolute path, URL and system targets, missing / '
+             'throwing / broken files, early returns and merged adjacent includes and checks that the machine agrees with the '
+             'structural recursion Expected (fetch order = program order, one fetch per statement, return ends only the included '
+             'script, errors name the resolved location) and that BaseRestored holds on every step. The same trees and random '
+             'trees to depth 4 / fan-out 3 (URL / path / absolute / no base, system prefix variants, includes inside function '
+             'bodies) run in the real code; fetch sequence, probes, globals, error class and named location must match.',
+        note='Paths are POSIX; "." and ".." segments are not generated (the code does not normalise them and the property does '
+             'not ask it to).',
+        ref='DESIGN.md 5 C17'),
 }
 
 NOT_YET = 'check not built yet in this round (work in progress; see DESIGN.md section 9 build order)'
